@@ -7,6 +7,7 @@ import (
 	"github.com/glebziz/fs_db"
 	"github.com/glebziz/fs_db/internal/model"
 	"github.com/glebziz/fs_db/internal/utils/ptr"
+	"github.com/glebziz/fs_db/internal/utils/vhook"
 )
 
 func (u *UseCase) Commit(ctx context.Context) error {
@@ -15,6 +16,7 @@ func (u *UseCase) Commit(ctx context.Context) error {
 	if err != nil {
 		return fmt.Errorf("tx repository delete: %w", err)
 	}
+	vhook.AtID("tx.commit.unregistered", txId)
 
 	var filter model.FileFilter
 	switch tx.IsoLevel {
